@@ -298,18 +298,24 @@ CHECKS["C09"] = dict(
     design="DESIGN.md section 6 C09, section 13")
 CHECKS["C10"] = dict(
     engine="coq-resume",
-    text="Coq theorems: c10_released_plan_is_quiescent / c10_recovery_converges_partial (with no deviation flag, every release accepted by the "
-         "resumed automaton returns a terminal plan with nothing left Running, the terminal write = finalStates of the in-memory statuses), "
-         "c10_flags_only_loosen, and the FULL statement refuted per known finding (c10_recovery_converges_refuted_R2/R3/R5/R6: one real "
-         "recovery each, accepted only with that flag, on which mon_converges is false). The remaining clauses (reaches release without "
-         "hanging; C04 consistency of the final plan; every entered scope's deferred group has a completed run; final status = the "
-         "uninterrupted run's verdict for action-determined plugin outcomes) are evaluated by the independent monitor mon_converges on "
-         "every real recovery; a case that needs a listed finding prints KNOWN-FINDING, anything else is a VIOLATION.",
-    note=RECOVER_NOTE + "PARTIAL: progress/termination, the consistency and deferred-check clauses and verdict equality are monitored, not "
+    text="Coq theorems, for every shape, every trace accepted by the engine automaton, every crash point k and every deviation flag set at "
+         "the first crash: the crash image is consistent (c10_crash_images_consistent); a release accepted by the resumed automaton "
+         "returns a terminal plan that obeys the sequence/action rules and the plan rule of C04 "
+         "(c10_released_sequences_and_actions_consistent, c10_released_plan_consistent: coq/c10x); with NO flag nothing in it is left "
+         "Running and the terminal write = finalStates of the in-memory statuses (c10_released_plan_is_quiescent, "
+         "c10_recovery_converges_partial: coq/resume); the plan-scope deferred group has run when the repair does not short-circuit "
+         "(c10_plan_deferred_group_ran_partial); c10_flags_only_loosen. The FULL statement is refuted per known finding "
+         "(c10_recovery_converges_refuted_R2/R3/R5/R6: one real recovery each, accepted only with that flag, on which mon_converges is "
+         "false) and its deferred-checks clause also without any flag (second half of R2, real recovery rec-5009-k12). The remaining "
+         "clauses (reaches release without hanging; block-scope deferred groups; the block rule; time flags; final status = the "
+         "uninterrupted run's verdict for action-determined outcomes; everything after a second crash) are evaluated by the independent "
+         "monitor mon_converges on every real recovery; a case that needs a listed finding prints KNOWN-FINDING, anything else is a "
+         "VIOLATION.",
+    note=RECOVER_NOTE + "PARTIAL: progress/termination, block-scope deferred groups, the block rule and verdict equality are monitored, not "
          "proved; the code genuinely violates the full property (known findings R2, R3, R5, R6 in known_findings.json: interrupted "
-         "check-group runs, fixBlock early return, in-memory-only sequence repair before a second crash, plan continuous failure abandoning "
-         "the running block); R7 was repaired (0c944e8)",
-    technique="Coq proof (release-side invariant; refutation witnesses by vm_compute) + monitor + trace-acceptance correspondence on real recoveries",
+         "check-group runs and deferred groups skipped when recovery short-circuits to End, fixBlock early return, in-memory-only sequence "
+         "repair before a second crash, plan continuous failure abandoning the running block); R7 was repaired (0c944e8)",
+    technique="Coq proof (invariants of the resumed automaton over C04's product invariant and the Fix.v transcription; refutation witnesses by vm_compute from real recoveries) + monitor + trace-acceptance correspondence on real recoveries",
     design="DESIGN.md section 6 C10, section 13")
 
 PENDING_REASON = "check under construction in this session (see DESIGN.md section 12 build order); not yet claimed"
